@@ -200,6 +200,17 @@ pub enum Cb {
     /// the storage layer wrote the new key but then reports failure (e.g. a failing fsync after a
     /// successful write): the callback returns Err although the persisted key IS the successor
     RejectPersisted,
+    /// the first invocation within a call fails, any later invocation succeeds (a transient storage
+    /// error): a correct implementation invokes the callback once and therefore fails
+    RejectOnce,
+    /// the callback panics (the caller catches the unwind)
+    Panic,
+}
+
+thread_local! {
+    /// harness-controlled point inside the key-update callback (before it answers): lets a scheduler
+    /// pause a call in the middle, or nest another library call inside the callback
+    pub static CB_HOOK: RefCell<Option<Box<dyn Fn()>>> = RefCell::new(None);
 }
 
 #[derive(Clone, Debug, PartialEq, Eq)]
@@ -227,9 +238,23 @@ pub fn sign(hid: Hid, sk: &[u8], msg: &[u8], cb: Cb, aux: Option<&mut Vec<u8>>, 
                 Entry::Bytes => {
                     let mut f = |k: &[u8]| -> Result<(), ()> {
                         cb_args.push(k.to_vec());
+                        // the hook is taken out while it runs (it may call into the library again)
+                        let hook = CB_HOOK.with(|h| h.borrow_mut().take());
+                        if let Some(hk) = hook {
+                            hk();
+                            CB_HOOK.with(|h| *h.borrow_mut() = Some(hk));
+                        }
                         match cb {
                             Cb::Accept => Ok(()),
                             Cb::Reject | Cb::RejectPersisted => Err(()),
+                            Cb::RejectOnce => {
+                                if cb_args.len() == 1 {
+                                    Err(())
+                                } else {
+                                    Ok(())
+                                }
+                            }
+                            Cb::Panic => panic!("key update callback panics"),
                         }
                     };
                     let r = match aux {
@@ -264,6 +289,31 @@ pub fn sign(hid: Hid, sk: &[u8], msg: &[u8], cb: Cb, aux: Option<&mut Vec<u8>>, 
         };
         SignOut { res, cb_args, aux_len, key_after }
     })
+}
+
+/// plain sign (bytes API, accepting callback) with the callback hook suspended; returns the encoded outcome
+pub fn sign_no_hook(hid: Hid, sk: &[u8], msg: &[u8]) -> Vec<u8> {
+    let saved = CB_HOOK.with(|h| h.borrow_mut().take());
+    let o = sign(hid, sk, msg, Cb::Accept, None, Entry::Bytes);
+    CB_HOOK.with(|h| *h.borrow_mut() = saved);
+    let mut out = vec![];
+    match &o.res {
+        Res::Ok(s) => {
+            out.extend_from_slice(b"OK:");
+            out.extend_from_slice(s);
+        }
+        Res::Err => out.extend_from_slice(b"ERR"),
+        Res::Panic(p) => {
+            out.extend_from_slice(b"PANIC:");
+            out.extend_from_slice(site_of(p).as_bytes());
+        }
+    }
+    out.extend_from_slice(b"|SUCC:");
+    for a in &o.cb_args {
+        out.extend_from_slice(a);
+        out.push(b',');
+    }
+    out
 }
 
 #[derive(Clone, Copy, Debug, PartialEq, Eq, Hash, PartialOrd, Ord, serde::Serialize, serde::Deserialize)]
